@@ -46,6 +46,9 @@ func nativeReplay(rf *ReplayFile) map[string]interface{} {
 		TmpDir  string           `json:"tmpdir"`
 	}
 	nd := nat{Inputs: rf.Cex.Inputs, Params: rf.Params, TmpDir: tmp}
+	if rf.Cex.Kind == "" && len(rf.Cex.Chooses) == 0 && len(rf.Cex.Inputs) == 0 {
+		res["selftest"] = true
+	}
 	for _, c := range rf.Cex.Chooses {
 		if c.Label == "h" {
 			nd.Chooses = append(nd.Chooses, c.Val)
@@ -78,7 +81,7 @@ func nativeReplay(rf *ReplayFile) map[string]interface{} {
 	if rel == "" {
 		target = "."
 	}
-	cmd := exec.CommandContext(ctx, "go", "test", "-vet=off", "-count=1", "-overlay", opath, "-run", "^TestZZVerifReplay$", "-timeout", "120s", target)
+	cmd := exec.CommandContext(ctx, "go", "test", "-v", "-vet=off", "-count=1", "-overlay", opath, "-run", "^TestZZVerifReplay$", "-timeout", "120s", target)
 	cmd.Dir = repoDir
 	cmd.Env = append(os.Environ(), "GOFLAGS=-mod=mod", "GOPROXY=off", "GOSUMDB=off", "GOTOOLCHAIN=local", "ZZ_REPLAY="+rpath)
 	out, err := cmd.CombinedOutput()
@@ -89,6 +92,7 @@ func nativeReplay(rf *ReplayFile) map[string]interface{} {
 		tail = tail[len(tail)-3000:]
 	}
 	res["log_tail"] = tail
+	res["log_full"] = s
 	switch {
 	case ctx.Err() != nil || strings.Contains(s, "test timed out") || strings.Contains(s, "panic: test timed out"):
 		res["status"] = "hang"
@@ -110,4 +114,42 @@ func nativeReplay(rf *ReplayFile) map[string]interface{} {
 		res["status"] = "passes"
 	}
 	return res
+}
+
+// selfTest runs a concrete harness in the engine and natively and compares the digests.
+func selfTest(P *Program, fnName string, params map[string]int64) (ok bool, detail string) {
+	fn := P.findFunc(fnName)
+	if fn == nil {
+		return false, "self-test function not found: " + fnName
+	}
+	cx := &Counterexample{}
+	job := &Job{P: P, Fn: fn, Name: "selftest", Params: params, Concrete: cx, Known: map[string]bool{}}
+	job.Explore(1, "", nil, "")
+	if len(job.Cexs) > 0 || len(job.EngineErrors) > 0 {
+		var why []string
+		for id, c := range job.Cexs {
+			why = append(why, id+": "+c.Msg)
+		}
+		return false, fmt.Sprintf("engine run of %s failed: %v %v", fnName, why, job.EngineErrors)
+	}
+	rf := &ReplayFile{Fn: fnName, Params: params, Cex: cx}
+	nat := nativeReplay(rf)
+	if st, _ := nat["status"].(string); st != "passes" {
+		return false, fmt.Sprintf("native run of %s: %v\n%v", fnName, nat["status"], nat["log_tail"])
+	}
+	var nd []string
+	for _, ln := range strings.Split(nat["log_full"].(string), "\n") {
+		if strings.HasPrefix(ln, "ZZVERIF-DIGEST ") {
+			nd = append(nd, strings.TrimPrefix(ln, "ZZVERIF-DIGEST "))
+		}
+	}
+	if len(nd) == 0 || len(nd) != len(job.Digests) {
+		return false, fmt.Sprintf("%s: digest count differs: engine %d native %d", fnName, len(job.Digests), len(nd))
+	}
+	for i := range nd {
+		if nd[i] != job.Digests[i] {
+			return false, fmt.Sprintf("%s: digest %d differs: engine %s native %s", fnName, i, job.Digests[i], nd[i])
+		}
+	}
+	return true, fmt.Sprintf("%s: %d observations identical in engine and native run", fnName, len(nd))
 }
